@@ -13,7 +13,7 @@
     Partial on the operating system: fsync/rename semantics, LevelDB's own journal recovery and
     partial writes inside one LevelDB batch are not modelled (a batch commit is atomic, a file write
     lands as a prefix). *)
-From Coq Require Import List NArith.
+From Coq Require Import List NArith ZArith.
 Import ListNotations.
 From Ont Require Import Lib.Bytes Model.RecoverTypes Gen.Recover Model.Recovery
   Proofs.RecoveryLib Proofs.Recovery Proofs.RecoveryCrash.
